@@ -26,7 +26,9 @@ func Check() *engine.Check {
 	return &engine.Check{
 		ID:    "C05",
 		Level: "exploration",
-		Rule: "scenario = signing algorithm (quick: ES256, RS256; thorough: + ES384, ES512, EdDSA, PS256/384/512, RS384/512; RSA-2048, " +
+		Rule: "(scope lists) the three scope matchers called directly over every list of up to 3 granted and up to 2 required scopes of a 10 value " +
+			"alphabet (wildcard forms, parents, children): the answer for lists equals the composition of the answers for the single " +
+			"(required, granted) pairs; (tokens) scenario = signing algorithm (quick: ES256, RS256; thorough: + ES384, ES512, EdDSA, PS256/384/512, RS384/512; RSA-2048, " +
 			"P-256/384/521, Ed25519, all keys derived deterministically) x served key set (single key with kid / without kid, three keys of two " +
 			"types, duplicate kid, key without alg; thorough: + key without alg next to the same key with alg, x5c chains valid / with " +
 			"intermediate / expired / not yet valid / foreign root / foreign root with validate_jwk=false / without digitalSignature usage / " +
@@ -196,6 +198,9 @@ func run(c *engine.Ctx) {
 
 	runTwoIdPs(c, &work)
 	env.SetNow(env.T0)
+
+	// the scope matchers over lists: composed of the answers for the pairs
+	runScopeLaws(c)
 }
 
 func runScenario(c *engine.Ctx, sc Scenario) {
@@ -359,6 +364,19 @@ func evalTok(c *engine.Ctx, rt *runtime, t Tok, seen map[string]bool) {
 func replay(c *engine.Ctx, raw json.RawMessage) {
 	var part struct {
 		Part string `json:"part"`
+	}
+
+	if json.Unmarshal(raw, &part) == nil && part.Part == "scope-lists" {
+		var cs ScopeLawCase
+		if err := json.Unmarshal(raw, &cs); err != nil {
+			c.Infra("bad replay: %v", err)
+
+			return
+		}
+
+		judgeScopeLaw(c, &cs)
+
+		return
 	}
 
 	if json.Unmarshal(raw, &part) == nil && part.Part == "two-idps" {
